@@ -1,0 +1,10 @@
+//go:build verif
+
+// Contracts for the verifier in /verif (govc). Comment-only: no declarations.
+
+package mime
+
+//@ func SplitField
+//@   property C06
+//@   safe
+//@   pure
